@@ -16,7 +16,7 @@ def gapRender : Gap → Bytes → Bytes → Bytes
   | [], ws, rest => ws ++ rest
   | (w, b) :: t, ws, rest => w ++ ('/' :: '*' :: (b ++ ('*' :: '/' :: gapRender t ws rest)))
 
-def gapOk (g : Gap) : Bool := g.all (fun p => p.1.all isSpace && p.2.all cmtCharOk)
+def gapOk (g : Gap) : Bool := g.all (fun p => p.1.all isSpace && cmtOk p.2)
 
 theorem gapRender_length (g : Gap) (ws rest : Bytes) :
     (gapRender g ws rest).length = (gapRender g ws []).length + rest.length := by
@@ -232,11 +232,11 @@ def RInstC.render (i : RInstC) (rest : Bytes) : Bytes :=
 
 /-- between the keyword and `(`: white space and comments -/
 def preOk (pre : List Tok) : Bool :=
-  pre.all (fun t => match t with | .other c => isSpace c | .cmt b => b.all cmtCharOk | _ => false)
+  pre.all (fun t => match t with | .other c => isSpace c | .cmt b => cmtOk b | _ => false)
 
 structure RInstC.Ok (i : RInstC) : Prop where
   w0 : i.ws0.all isSpace = true
-  lead : (match i.lead with | none => true | some (b, wl) => b.all cmtCharOk && wl.all isSpace) = true
+  lead : (match i.lead with | none => true | some (b, wl) => cmtOk b && wl.all isSpace) = true
   w1 : i.ws1.all isSpace = true
   w2 : i.ws2.all isSpace = true
   w3 : i.ws3.all isSpace = true
@@ -290,7 +290,7 @@ theorem pre_facts : ∀ (pre : List Tok), preOk pre = true → ∀ (ts : List To
       · simp only [List.cons_append]
         rw [seqOk_other, ih'.2.2.2.2]
     | cmt b =>
-      have hb : b.all cmtCharOk = true := by simpa using hp.1
+      have hb : cmtOk b = true := by simpa using hp.1
       refine ⟨fun t h => ?_, fun d => by simp [innerOk, ih'.2.1], fun d => by simp [depthAfter, ih'.2.2.1],
         by simp [refsOfToks, ih'.2.2.2.1], ?_⟩
       · rcases List.mem_cons.mp h with h | h
@@ -318,7 +318,7 @@ theorem seekEnd_body0_gap (ts : List Tok) (hall : ∀ t ∈ ts, t.ok = true) (hs
 
 /-- `#` digits gap `=` with an optional comment before `#` -/
 theorem readInstanceNumber_gap (ws0 : Bytes) (lead : Option (Bytes × Bytes)) (ws1 ds : Bytes) (g2 : Gap) (ws2 : Bytes)
-    (h0 : ws0.all isSpace = true) (hl : ∀ b wl, lead = some (b, wl) → b.all cmtCharOk = true ∧ wl.all isSpace = true)
+    (h0 : ws0.all isSpace = true) (hl : ∀ b wl, lead = some (b, wl) → cmtOk b = true ∧ wl.all isSpace = true)
     (h1 : ws1.all isSpace = true) (hg : gapOk g2 = true)
     (h2 : ws2.all isSpace = true) (dne : ds ≠ []) (dd : ds.all isDigit = true) (dlen : idLen ds ≤ instanceIdDigits)
     (dpos : 0 < digitsVal ds) (dmax : digitsVal ds ≤ instanceIdMax) (u : Bytes) (f : Nat)
